@@ -36,6 +36,10 @@ pub struct HP {
     pub weights: [u32; 9],
     /// allow set_config to choose any legal packet size (C06) instead of staying above the largest header
     pub wild_config: bool,
+    /// before the generated history: this many idle -> active -> idle flaps (a member joins, goes Down, every
+    /// timer is delivered, the member is forgotten), so that the 8-bit timer token is about to wrap
+    #[serde(default)]
+    pub warmup_flaps: u32,
 }
 
 #[derive(Clone, Debug, serde::Serialize, serde::Deserialize)]
@@ -187,10 +191,15 @@ pub fn gen_hp(seed: u64, profile: &str, tier: Tier) -> HP {
     if profile == "C08" {
         setup.acc_twin = s.chance(1, 2);
     }
-    let mut hp = HP { profile: profile.to_string(), setup, addrs: s.range(3, 6) as u16, steps, timer_mode, weights, wild_config: wild };
+    let mut hp = HP { profile: profile.to_string(), setup, addrs: s.range(3, 6) as u16, steps, timer_mode, weights, wild_config: wild, warmup_flaps: 0 };
     // injected fault of the no-panic check only: the instance's codec fails at random calls
     if wild && hp.setup.codec.is_wire() && !hp.setup.policy.var_ids && s.chance(1, 3) {
         hp.setup.codec = CodecKind::WireFlaky;
+    }
+    // one run in ten (C13, C11) or forty starts with the timer token about to wrap around
+    let odds = if profile == "C13" || profile == "C11" { 10 } else { 40 };
+    if s.chance(1, odds) {
+        hp.warmup_flaps = 246 + s.below(14) as u32;
     }
     hp
 }
@@ -248,6 +257,19 @@ impl<'a> Gen<'a> {
         Member::new(id, inc, self.state())
     }
     fn updates(&mut self, d: &Driver) -> Vec<Member<SimId>> {
+        // one batch in sixteen sweeps the table: every active member goes Down, then (often) something
+        // about the instance itself or a newcomer - several connection-state changes inside ONE call
+        if self.s.chance(1, 16) && !d.obs.active.is_empty() {
+            let mut v: Vec<Member<SimId>> = d.obs.active.iter().map(|m| Member::new(*m.id(), m.incarnation(), State::Down)).collect();
+            match self.s.below(5) {
+                0 => v.push(Member::new(d.id(), d.obs.snap.incarnation, State::Down)),
+                1 => v.push(Member::new(d.id(), u16::MAX, State::Suspect)),
+                2 => v.push(self.update(d)),
+                3 => v.insert(0, Member::new(d.id(), 0, State::Down)),
+                _ => {}
+            }
+            return v;
+        }
         let n = *self.s.pick(&[0usize, 0, 1, 1, 2, 3, 4, 6]);
         (0..n).map(|_| self.update(d)).collect()
     }
@@ -556,15 +578,50 @@ pub fn run_hist(hp: &HP, seed: u64, steps: Option<&[Step]>) -> HistRun {
     let mut now: u64 = 0;
     let mut issue_time: std::collections::BTreeMap<u64, u64> = Default::default();
     let mut seen_seq = 0u64;
-    let total = steps.map(|s| s.len()).unwrap_or(hp.steps);
     let mut extra = Vec::new();
-    for i in 0..total {
+    // warm-up state: flaps left, phase (0 join, 1 down, 2 drain the timers)
+    let mut warm_left = if steps.is_none() { hp.warmup_flaps } else { 0 };
+    let mut warm_phase = 0u8;
+    let warm_id = SimId::new(2, OWN_GEN);
+    let mut generated = 0usize;
+    let mut i = 0usize;
+    loop {
         if d.dead() {
             break;
         }
         let step = match steps {
-            Some(s) => s[i].clone(),
-            None => g.next(&d),
+            Some(s) => {
+                if i >= s.len() {
+                    break;
+                }
+                i += 1;
+                s[i - 1].clone()
+            }
+            None if warm_left > 0 => match warm_phase {
+                0 => {
+                    warm_phase = 1;
+                    Step::In(Input::ApplyMany(vec![Member::new(warm_id, 0, State::Alive)], false))
+                }
+                1 => {
+                    warm_phase = 2;
+                    Step::In(Input::ApplyMany(vec![Member::new(warm_id, 0, State::Down)], false))
+                }
+                _ => {
+                    if d.pending.is_empty() {
+                        warm_phase = 0;
+                        warm_left -= 1;
+                        continue;
+                    }
+                    Step::NextTimer
+                }
+            },
+            None => {
+                if generated >= hp.steps {
+                    break;
+                }
+                generated += 1;
+                g.next(&d)
+            }
         };
         let Some(input) = resolve(&step, &d, &mut now, &issue_time) else {
             done.push(step);
